@@ -686,3 +686,61 @@ func normalisePkg(p *pkgInfo, known map[string]bool) map[string]int {
 	}
 	return in.Inlined
 }
+
+// localAliases: local variables that merely name a field path (`x := a.b.c`, assigned exactly
+// once, right-hand side an identifier / selector chain without calls): hoisting such a path into
+// a local is a rewrite the facts should not notice. Returns name -> printed path.
+func localAliases(fd *ast.FuncDecl) map[string]string {
+	count := map[string]int{}
+	rhs := map[string]ast.Expr{}
+	if fd == nil || fd.Body == nil {
+		return nil
+	}
+	ast.Inspect(fd.Body, func(n ast.Node) bool {
+		switch x := n.(type) {
+		case *ast.AssignStmt:
+			for i, l := range x.Lhs {
+				if id, ok := l.(*ast.Ident); ok {
+					count[id.Name]++
+					if x.Tok == token.DEFINE && len(x.Lhs) == len(x.Rhs) {
+						rhs[id.Name] = x.Rhs[i]
+					}
+				}
+			}
+		case *ast.IncDecStmt:
+			if id, ok := x.X.(*ast.Ident); ok {
+				count[id.Name]++
+			}
+		case *ast.RangeStmt:
+			for _, e := range []ast.Expr{x.Key, x.Value} {
+				if id, ok := e.(*ast.Ident); ok {
+					count[id.Name] += 2
+				}
+			}
+		case *ast.UnaryExpr:
+			if id, ok := x.X.(*ast.Ident); ok && x.Op == token.AND {
+				count[id.Name] += 2 // address taken: may change behind our back
+			}
+		}
+		return true
+	})
+	var pure func(e ast.Expr) bool
+	pure = func(e ast.Expr) bool {
+		switch x := e.(type) {
+		case *ast.Ident:
+			return x.Name != "nil" && x.Name != "true" && x.Name != "false"
+		case *ast.SelectorExpr:
+			return pure(x.X)
+		}
+		return false
+	}
+	out := map[string]string{}
+	for n, e := range rhs {
+		if count[n] == 1 && pure(e) {
+			if _, isIdent := e.(*ast.Ident); !isIdent { // a bare rename says nothing about a path
+				out[n] = exprStr(e)
+			}
+		}
+	}
+	return out
+}
